@@ -120,6 +120,11 @@ impl<T: Qcow2IoOps> Qcow2Dev<T> {
         }
         self.call_fsync(0, usize::MAX, 0).await?;
 
+        // Reads and writes which looked the old mapping up before it was
+        // cleared may still be working on these clusters: wait for them. Who
+        // comes later finds the cleared entry.
+        let _data_io = self.data_io_lock.write().await;
+
         for (host_cluster, host_count) in released {
             // Punch the host file so the OS reclaims the bytes. The
             // FALLOCATE_ZERO_RANGE flag asks for both hole-punch + reads-as-
